@@ -59,10 +59,34 @@ class CallbackContext(Location, ActionCallback):
         if file != self.__filename or function_name != self.__function_name:
             return False
 
+        if self.__is_nested_call(frame):
+            return False
+
         if self.__event == 'line':
             return self.__check_at_next_line(event, file, function_name)
         else:
             return self.__check_at_method_end(event)
+
+    def __is_nested_call(self, frame: FrameType) -> bool:
+        """
+        Check if the event comes from a call made (directly or not) by the invocation we are waiting for.
+
+        The file and the name of the function are the same for a recursive call, and for a method that hands over to
+        the method of that name of another object. While the frame that opened this context is still running further
+        down the stack, an event of another frame is not the end of ours: the snapshot would carry the value the inner
+        call returned, the span would be closed when the inner call ends.
+
+        :param frame: the frame of the event
+        :return: True, if the frame that opened this context is a caller of the frame
+        """
+        if self.frame is None or frame is None or frame is self.frame:
+            return False
+        caller = frame.f_back
+        while caller is not None:
+            if caller is self.frame:
+                return True
+            caller = caller.f_back
+        return False
 
     def process(self, ctx: 'TriggerContext', event: str, frame: FrameType, arg: any):
         """
